@@ -6,7 +6,13 @@ Line-protocol driver for the L0 slot model (C14/C15).
            resize_with n ext_slice n ext_within a b ext_iter hint n clone append n split_off i
            drain a b <script> into_iter <script> reserve n shrink_fit roundtrip drop
            pop_if t|f from_iter hint n
-           script = letters n (next) / b (next_back) ending with d (drop) or l (leak), e.g. `nbd`
+           `ext_iter` / `from_iter` take an optional 4th token (`-`, `=`, `+k`: the upper bound
+           of the scripted size hint); the code under test never reads the upper bound, the model
+           ignores it
+           script = pulls n (next) b (next_back) N<k> (nth k) M<k> (nth_back k) s<k> (skip(k).next()
+           = nth k) t<k> (two pulls of step_by(k) = next, nth (k-1)) r (rev().next() = next_back),
+           then one terminal: d (drop) l (mem::forget) L (last) C (count) F (fold with a user
+           closure) R (rfold), e.g. `nN1bC`
   output : `<ret> | len=<n> | cap=<n> | ids=<…> | calls=<n> | trace: <events of this step>`
            ids canonicalised in order of first appearance over the whole run.
 -/
@@ -58,12 +64,44 @@ def showRet (c : Canon) : Ret → String × Canon
   | .panic => ("panic", c)
   | .na => ("na", c)
 
+/-- script letters: `n` next, `b` next_back, `N<k>` nth(k), `M<k>` nth_back(k), `s<k>`
+skip(k).next() (= nth k), `t<k>` two pulls of step_by(k) (= next, nth (k-1)), `r` rev().next()
+(= next_back); last letter: `d` drop, `l` leak (mem::forget), `L` last(), `C` count(), `F`
+fold/for_each, `R` rfold -/
+def parseSteps : Nat → List Char → Option (List IStep)
+  | _, [] => some []
+  | 0, _ => none
+  | fuel + 1, c :: rest =>
+    let digits := rest.takeWhile Char.isDigit
+    let rest' := rest.dropWhile Char.isDigit
+    let k := (String.ofList digits).toNat?.getD 0
+    match parseSteps fuel rest' with
+    | none => none
+    | some r =>
+      match c with
+      | 'n' => if digits.isEmpty then some (.front :: r) else none
+      | 'b' => if digits.isEmpty then some (.back :: r) else none
+      | 'r' => if digits.isEmpty then some (.back :: r) else none
+      | 'N' => some (.nth k :: r)
+      | 'M' => some (.nthBack k :: r)
+      | 's' => some (.nth k :: r)
+      | 't' => if k = 0 then none else some (.front :: .nth (k - 1) :: r)
+      | _ => none
+
 def parseScript (w : String) : Option (List IStep × IFin) :=
   let cs := w.toList
-  match cs.getLast? with
-  | some 'd' => (cs.dropLast.mapM fun ch => if ch = 'n' then some IStep.front else if ch = 'b' then some IStep.back else none).map (·, IFin.drop)
-  | some 'l' => (cs.dropLast.mapM fun ch => if ch = 'n' then some IStep.front else if ch = 'b' then some IStep.back else none).map (·, IFin.leak)
-  | _ => none
+  let fin : Option IFin :=
+    match cs.getLast? with
+    | some 'd' => some .drop
+    | some 'l' => some .leak
+    | some 'L' => some .last
+    | some 'C' => some .count
+    | some 'F' => some .fold
+    | some 'R' => some .rfold
+    | _ => none
+  match fin, parseSteps cs.length cs.dropLast with
+  | some f, some st => some (st, f)
+  | _, _ => none
 
 def parseOp (ws : List String) : Option Op :=
   match ws with
@@ -73,6 +111,7 @@ def parseOp (ws : List String) : Option Op :=
   | ["pop_if", "t"] => some (.popIf true)
   | ["pop_if", "f"] => some (.popIf false)
   | ["from_iter", h, n] => do some (.fromIter (← h.toNat?) (← n.toNat?))
+  | ["from_iter", h, n, _hi] => do some (.fromIter (← h.toNat?) (← n.toNat?))
   | ["insert", i] => i.toNat?.map .insert
   | ["try_insert", i] => i.toNat?.map .tryInsert
   | ["remove", i] => i.toNat?.map .remove
@@ -84,6 +123,7 @@ def parseOp (ws : List String) : Option Op :=
   | ["ext_slice", n] => n.toNat?.map .extSlice
   | ["ext_within", a, b] => do some (.extWithin (← a.toNat?) (← b.toNat?))
   | ["ext_iter", h, n] => do some (.extIter (← h.toNat?) (← n.toNat?))
+  | ["ext_iter", h, n, _hi] => do some (.extIter (← h.toNat?) (← n.toNat?))
   | ["clone"] => some .clone
   | ["append", n] => n.toNat?.map .append
   | ["split_off", i] => i.toNat?.map .splitOff
